@@ -606,6 +606,11 @@ def _may_rebind(facts, method, attr):
     return False
 
 
+_ALIAS_SAFE_CALLS = {'len', 'list', 'sorted', 'set', 'tuple', 'enumerate',
+                     'bool', 'any', 'all', 'sum', 'min', 'max', 'reversed',
+                     'iter', 'dict', 'frozenset'}
+
+
 def _container_alias(fn, name, v, facts):
     """`name = self.<attr>` where every use of `name` goes *through* the
     object (subscript / attribute base, loop iterable, membership) and no
@@ -633,6 +638,17 @@ def _container_alias(fn, name, v, facts):
                 continue
             if isinstance(p, ast.Compare) and len(p.ops) == 1 and isinstance(
                     p.ops[0], (ast.In, ast.NotIn)) and p.comparators[0] is x:
+                continue
+            # truth tests and pure builtins look at the object, not at the
+            # name: `if not pids`, `len(pids)`, `sorted(pids)`
+            if isinstance(p, (ast.If, ast.While, ast.IfExp)) and p.test is x:
+                continue
+            if isinstance(p, ast.UnaryOp) and isinstance(p.op, ast.Not):
+                continue
+            if isinstance(p, ast.BoolOp):
+                continue
+            if isinstance(p, ast.Call) and x in p.args and \
+                    dotted(p.func) in _ALIAS_SAFE_CALLS and not p.keywords:
                 continue
             return False
         if isinstance(x, ast.Call) and isinstance(x.func, ast.Attribute) and \
